@@ -822,6 +822,11 @@ class ZonalStatistics(AccessorBase):
         if "nodata" not in zones.attrs:
             raise ValueError("Zones xarray DataArray needs nodata attribute")
 
+        # the kernel pairs pixels and zones by position and expects (T, Y, X):
+        # put the spatial dimensions last, in the order of the zone raster
+        if set(zones.dims) <= set(xx.dims):
+            xx = xx.transpose(..., *zones.dims)
+
         # set null values to nodata value
         xx = xx.where(xx.notnull(), xx.nodata)
         attrs = xx.attrs
